@@ -76,16 +76,19 @@ def work (c : Cand) : Q := if c.cost < 1 then 1 else c.cost
 /-- error indicator `δ / max(1, cost)`; NaN stays NaN -/
 def indicator (c : Cand) : Option Q := c.delta.map (· / work c)
 
-/-- the scan of `System.refine`: running maximum starting at −∞ (`none`), strict `>`; NaN never selected -/
-def argmaxStep : List Cand → Option (Cand × Q) → Option (Cand × Q)
-  | [], best => best
-  | c :: rest, best =>
-      match indicator c, best with
-      | none, _ => argmaxStep rest best
-      | some e, none => argmaxStep rest (some (c, e))
-      | some e, some (b, eb) => if e > eb then argmaxStep rest (some (c, e)) else argmaxStep rest (some (b, eb))
+/-- the scan of `System.refine`: `star` = chosen candidate so far, `emax` = running maximum (`none` = −∞).
+    A defined indicator replaces the choice iff it is strictly greater than the running maximum; an undefined (NaN)
+    indicator is taken only as a fallback while nothing has been chosen yet and never raises the running maximum. -/
+def scanStep : List Cand → Option Cand → Option Q → Option Cand
+  | [], star, _ => star
+  | c :: rest, star, emax =>
+      match indicator c with
+      | some e =>
+          if (match emax with | none => true | some m => decide (e > m)) then scanStep rest (some c) (some e)
+          else scanStep rest star emax
+      | none => if star.isNone then scanStep rest (some c) emax else scanStep rest star emax
 
-def choose (cands : List Cand) : Option Cand := (argmaxStep cands none).map (·.1)
+def choose (cands : List Cand) : Option Cand := scanStep cands none none
 
 /-- outcome of one `fit` iteration -/
 inductive StepResult where
@@ -96,13 +99,18 @@ deriving Repr
 /-- `System.fit` loop control: `steps` is the stream of refinement outcomes, `maxIter` already includes the existing
     history length, `tol` the tolerance, `timeUp k` whether the time limit has passed after step `k`.
     Returns the number of history entries appended. -/
+def errBelow (err : Option Q) (tol : Q) : Bool :=
+  match err with
+  | some e => decide (e < tol)
+  | none => false          -- `nan < tol` is False
+
 def fitLoop (maxIter : Nat) (tol : Q) (timeUp : Nat → Bool) : Nat → List StepResult → Nat
   | level, [] => level
   | level, StepResult.noCandidate :: _ => level
   | level, StepResult.activated err :: rest =>
       let level' := level + 1
       if level' ≥ maxIter then level'
-      else if (match err with | some e => decide (e < tol) | none => false) then level'
+      else if errBelow err tol then level'
       else if timeUp level' then level'
       else fitLoop maxIter tol timeUp level' rest
 
